@@ -327,7 +327,8 @@ fn section_codecs(rng: &mut Rng, out: &mut CaseOut, thorough: bool) {
                 out.count("range_lookups", 1);
             }
             // ---- Coq cases: model reader on the implementation's bytes (decode direction), spec on answers
-            if coq_budget > 0 && n <= 1600 {
+            // large payloads (several kB of literals) only for a share of the columns: keeps the slowest shard short
+            if coq_budget > 0 && n <= 1600 && (n <= 600 || ci % 3 == 1) {
                 if let Some((reader, _)) = model_reader_term(&loaded.bytes) {
                     let idxs = sample_indices(rng, n, 6);
                     let expect: Vec<u64> = idxs.iter().map(|&i| back[i]).collect();
@@ -540,7 +541,7 @@ fn main() {
     tvh::quiet_panics();
     let mut rng = Rng::new(args.seed);
     let thorough = args.thorough();
-    let mut out = CaseOut::new(&args.out, HEADER, 70);
+    let mut out = CaseOut::new(&args.out, HEADER, 36);
     let only: Option<String> = args.extra.iter().find_map(|a| a.strip_prefix("--only=").map(|s| s.to_string()));
     let want = |s: &str| only.as_deref().map(|o| o == s).unwrap_or(true);
 
